@@ -20,7 +20,14 @@ import (
 
 type M = map[string]any
 
+// bigValue fills a member so that the canonical delta is longer than n bytes (every byte of it is bound by the delta hash,
+// however many digest blocks it spans; the update commitment is the last member of the canonical form).
+func bigValue(n int) string { return strings.Repeat("0123456789abcdef", n/16+1) }
+
 var patchJSON = []string{
+	`{"action":"ietf-json-patch","patches":[{"op":"add","path":"/big","value":"` + bigValue(1100) + `"}]}`,
+	`{"action":"ietf-json-patch","patches":[{"op":"add","path":"/bigger","value":"` + bigValue(2300) + `"}]}`,
+	`{"action":"ietf-json-patch","patches":[{"op":"add","path":"/biggest","value":"` + bigValue(5000) + `"}]}`,
 	`{"action":"replace","document":{"publicKeys":[` + ops.PubKeyJSON("k1", keys.New("P-256", 80), `["authentication"]`) + `],"services":[{"id":"s1","type":"T","serviceEndpoint":"https://s.example/"}]}}`,
 	`{"action":"add-public-keys","publicKeys":[` + ops.PubKeyJSON("k2", keys.New("Ed25519", 80), `["assertionMethod"]`) + `]}`,
 	`{"action":"remove-public-keys","ids":["k1"]}`,
